@@ -44,7 +44,10 @@ pub fn macro_chain(span: Span) -> Vec<String> {
     }
     for ed in span.macro_backtrace() {
         match ed.kind {
-            ExpnKind::Macro(_, name) => v.push(name.to_string()),
+            ExpnKind::Macro(_, name) => {
+                let n = name.to_string();
+                v.push(n.rsplit("::").next().unwrap_or(&n).to_string())
+            }
             ExpnKind::Desugaring(k) => v.push(format!("desugar:{:?}", k)),
             ExpnKind::AstPass(_) => v.push("astpass".to_string()),
             ExpnKind::Root => {}
